@@ -11,13 +11,13 @@ CONFIG = {
              'extracted sequential model), not by proof',
     'rule': 'histories of 2-4 goroutines x 1-4 ops over /d /d/x /d/y /f /g on one MemMapFs after a short sequential setup; families: '
             'excl-create, create-race, mkdir, mkdir-remove, removeall, rename, torn-read, handle-io, create-vs-io, unrelated, '
-            'metadata, random (whole op mix, private handles); 102 fixed window configurations (Readdirnames on an open directory || Rename of a child, '
+            'metadata, random (whole op mix, private handles); 105 fixed window configurations (Readdirnames on an open directory || Rename of a child, '
             'OpenFile with O_TRUNC/O_APPEND || Create, Write, Chtimes, Rename, Remove, Chmod on the same name, creation below a file), every schedule of the depth-0 mode, in both tiers; '
             'LOCK-AWARE mode of the cooperative scheduler (every lock acquisition is a switching point, also inside a critical section of m.mu; acquisitions are try-locks under scheduler control, '
-            'a goroutine whose lock is taken is blocked, nobody enabled = deadlock = oracle failure deadlock:<labels>): those 102 programs plus 223 written for it (listings through directory handles - Readdirnames, Readdir, whole and paged, one '
+            'a goroutine whose lock is taken is blocked, nobody enabled = deadlock = oracle failure deadlock:<labels>): those 105 programs plus 241 written for it (listings through directory handles - Readdirnames, Readdir, whole and paged, one '
             'or two directories, two handles - || Rename of the directory / of a child out of, into, within it (also to a name that extends the old one), onto an existing name, between the two listed directories and back, of a subdirectory with children, RemoveAll of a child subtree, Remove, '
             'Mkdir, MkdirAll, Create, exclusive create; OpenFile with every combination of O_APPEND/O_TRUNC/O_CREATE, read-write, write-only and read-only || Write, WriteAt, Truncate through another handle, || Stat; Create over an existing file || Read, ReadAt, '
-            'Write, Truncate, Stat through another handle; Chmod/Chtimes || File.Stat and Stat) explored depth-first under a PREEMPTION BOUND (quick: at most 2 switches away from a goroutine that could have continued, thorough: 3; switches at a blocked '
+            'Write, Truncate, Stat through another handle; Chmod/Chtimes || File.Stat and Stat; WriteAt / Seek+Write / Seek+WriteString more than 64 KiB beyond the end of the file || File.Stat, Stat+Size, Seek(0,end), ReadAt across the offset, a second far WriteAt through another handle; ReadDir(-1) / ReadDir(0) - the fs.ReadDirFile spelling, item HReadDir - and Readdir(-1) of a directory with 130 entries || Remove, Create, Rename of the entry that sorts first) explored depth-first under a PREEMPTION BOUND (quick: at most 2 switches away from a goroutine that could have continued, thorough: 3; switches at a blocked '
             'acquisition, at the end of a goroutine and between calls are free; per-program budget 6000 / 200000 schedules; generator_notes.child.window_lockaware_programs lists schedules and exhausted-under-the-bound per program), the generated small '
             'programs with bound 1 / 2, and every other random schedule; 4 real-preemption window programs in the stress phase of both tiers (Rename of a directory with 200 children || listings '
             'through handles opened before; Rename of an entry between two directories || listing of the old and then of the new parent; 150-2500 rounds). A Stat is recorded as lookup + one call per FileInfo accessor (the '
